@@ -1,4 +1,5 @@
 CONSTANTS NT = 3 NTh = 3 NI = 3 ReuseIdents = FALSE Deviations = {} MaxOps = 3 Apis = {"threading", "lowlevel"}
+          NPre = 1 Names = {1, 2, 3} IgnNames = {3} DummyIgn = {TRUE, FALSE} MaxX = 2 RenameSame = FALSE KeepHist = FALSE
 SPECIFICATION Spec
 INVARIANT Precise
 CHECK_DEADLOCK FALSE
